@@ -374,6 +374,36 @@ def validAlloc (ops : List AOp) (lo : List RSet) (col : Reg → Option Nat) (K :
     | some c => decide (c < K)
     | none => false)
 
+/-- same kind, same set of defs, same set of uses -/
+def sameShape (a b : AOp) : Bool :=
+  decide (a.kind = b.kind)
+  && a.defs.all (fun r => decide (r ∈ b.defs)) && b.defs.all (fun r => decide (r ∈ a.defs))
+  && a.uses.all (fun r => decide (r ∈ b.uses)) && b.uses.all (fun r => decide (r ∈ a.uses))
+
+/-- a virtual-to-virtual MOVE whose two ends are renamed to the same register -/
+def removableMove (m : RegMap) (op : AOp) : Bool :=
+  match moveOf? op with
+  | some (.virt a, .virt b) => decide (rep m (.virt a) = rep m (.virt b))
+  | _ => false
+
+/-- CHECKER for the coalescing step: `fin` is `pre` with every register renamed by `m`, where some
+MOVEs whose two ends got the same name are left out (and nothing else is). -/
+def coalesceMatches (m : RegMap) : List AOp → List AOp → Bool
+  | [], fs => fs.isEmpty
+  | p :: ps, [] => removableMove m p && coalesceMatches m ps []
+  | p :: ps, f :: fs =>
+    if sameShape (renameOp m p) f then coalesceMatches m ps fs
+    else removableMove m p && coalesceMatches m ps (f :: fs)
+
+/-- CHECKER, end to end for one colouring round: `pre` = the op list the round started from,
+`lo` = a live-out table of `pre`, `m` = the renaming applied by coalescing, `col` = the pool
+register of each representative, `fin` = the ops the assignment was applied to.
+`validAlloc` of the COMPOSED location map on `pre` (so a wrong merge shows up as a clobber in the
+op list before coalescing) and `fin` is the renamed `pre` without self-moves. -/
+def validRound (pre : List AOp) (lo : List RSet) (m : RegMap) (col : Reg → Option Nat) (K : Nat)
+    (fin : List AOp) : Bool :=
+  validAlloc pre lo (fun r => col (rep m r)) K && coalesceMatches m pre fin
+
 /-- Slots of 8 bytes at `a` and `b` do not overlap. -/
 def slotsApart (a b : Nat) : Bool := decide (a + 8 ≤ b) || decide (b + 8 ≤ a)
 
